@@ -202,7 +202,9 @@ def run_case(case):
     obs = scenario.run_scenario(sc, inspect=inspect)
     gc.collect()
     world = obs.world
-    if obs.outcome not in ("ok", "deadlock", "budget"):
+    if common.frozen_violation(world):
+        viol.append(common.frozen_violation(world))
+    elif obs.outcome not in ("ok", "deadlock", "budget"):
         raise common.HarnessError(f"scenario failed: {obs.outcome}: {obs.error!r}")
     s0 = obs.sessions["s0"]
     faulted_ops = 0
